@@ -150,6 +150,31 @@ impl ByteReader {
 }
 
 impl ByteReader {
+    /// TRUSTED (std): a single read hands out SOME prefix of what remains (possibly shorter than the buffer, 0 only at the
+    /// end of the input or for an empty buffer) and advances by that much; the rest of the buffer keeps its content.
+    #[verifier::external_body]
+    pub fn read(&mut self, buf: &mut [u8]) -> (r: Result<usize>)
+        requires
+            0 <= old(self).pos(),
+        ensures
+            final(self).content() == old(self).content(),
+            final(buf)@.len() == old(buf)@.len(),
+            r.is_ok() ==> {
+                let n = r.unwrap() as int;
+                &&& n <= old(buf)@.len()
+                &&& old(self).pos() + n <= old(self).content().len() || n == 0
+                &&& final(self).pos() == old(self).pos() + n
+                &&& (n == 0 ==> old(buf)@.len() == 0 || old(self).pos() >= old(self).content().len())
+                &&& (old(self).pos() + n <= old(self).content().len() ==> final(buf)@.subrange(0, n) == old(self).content().subrange(old(self).pos(), old(self).pos() + n))
+                &&& final(buf)@.subrange(n, old(buf)@.len() as int) == old(buf)@.subrange(n, old(buf)@.len() as int)
+            },
+            r.is_err() ==> final(self).pos() >= old(self).pos(),
+    {
+        unimplemented!()
+    }
+}
+
+impl ByteReader {
     /// TRUSTED (OS): the metadata of an open regular file reports its length.
     #[verifier::external_body]
     pub fn metadata(&self) -> (r: Result<Metadata>)
